@@ -174,6 +174,8 @@ type Exec struct {
 	obs         []obsRec
 	arrayMode   bool
 	obligation  bool
+	thWG        sync.WaitGroup
+	pathAbortFlag int32
 	fixedModel  Model
 	fixedBits   bitset
 	fixedEval   *Evaluator
@@ -422,6 +424,9 @@ func (e *Exec) runBlocks(fr *frame) {
 		e.steps += n
 		e.stats.Steps += n
 		*fr.count += int(n)
+		if e.pathAbortFlag != 0 {
+			panic(threadKill{})
+		}
 		if e.stopFlag != nil && atomic.LoadInt32(e.stopFlag) != 0 {
 			panic(&pathAbort{status: "stopped", msg: "run stopped (limit reached)"})
 		}
